@@ -69,17 +69,21 @@ Intended == [dev |-> {}, trim |-> <<>>]
 On(P, id) == id \in P.dev
 
 (* t= attribute of a written cell (CellValue::get_data_type_crate)                          *)
-(* C01-KF2: every cell with a formula is written t="str", whatever its cached result is     *)
-TrigKF2(x) == x.f # "" /\ x.k \in {"num", "bool", "err", "rich"}
+(* C01-KF2: a formula cell whose cached result is a rich text is written t="str" (flat text).  *)
+(* Numeric, boolean and error cached results keep their own t= (repaired in /repo 90e3095):    *)
+(* they are held to the intended behaviour and are no part of this deviation.                  *)
+TrigKF2(x) == x.f # "" /\ x.k = "rich"
 TypeOf(x, P) ==
-  IF x.f # "" /\ On(P, "C01-KF2") THEN "str"
+  IF On(P, "C01-KF2") /\ TrigKF2(x) THEN "str"
   ELSE CASE x.k = "text"  -> IF x.f = "" THEN "s" ELSE "str"
          [] x.k = "rich"  -> "s"
          [] x.k = "num"   -> "n"
          [] x.k = "bool"  -> "b"
          [] x.k = "err"   -> "e"
          [] OTHER         -> ""
-(* C01-KF1: the payload of a t="e" cell is always the literal #VALUE!                       *)
+(* C01-KF1 (repaired in /repo f647b99, status fixed: never enabled any more; kept so that the   *)
+(* record of what the deviation was stays executable): the payload of a t="e" cell was always  *)
+(* the literal #VALUE!                                                                         *)
 TrigKF1(x, P) == x.k = "err" /\ TypeOf(x, P) = "e" /\ x.v # "#VALUE!"
 (* C01-KF3: the payload of a t="str" cell is read with leading/trailing blanks removed      *)
 TrigKF3(x, P) == x.k # "blank" /\ TypeOf(x, P) = "str" /\ P.trim[x.v] # x.v
